@@ -43,7 +43,48 @@ func (s *mshadow) hasv(r Ref) bool {
 }
 
 // skip: what must not be judged at this step (known findings)
-type mskip struct{ recv, payload bool }
+type mskip struct {
+	recv, payload bool
+	joint         bool // MJoint: the payload is a visit sequence, judged by jointOracle
+}
+
+// jointOracle: the visit sequence of a.JointIterator(b) judged against the textbook contents of a and b
+// (independent of the storage of b and of the model): strictly increasing positions inside the matrix;
+// the values delivered are the elements there; an absent first scalar means a is zero there; every
+// position where a or b is non-zero is visited.
+func jointOracle(a, b *mat, p []int64) string {
+	if len(p)%4 != 0 {
+		return "malformed visit sequence"
+	}
+	seen := map[int]bool{}
+	last := -1
+	for q := 0; q+3 < len(p); q += 4 {
+		k, has, v1, v2 := int(p[q]), p[q+1], p[q+2], p[q+3]
+		if k < 0 || k >= len(a.v) {
+			return fmt.Sprintf("visit of position %d outside the matrix", k)
+		}
+		if k <= last {
+			return fmt.Sprintf("position %d visited after position %d (not strictly increasing)", k, last)
+		}
+		last = k
+		seen[k] = true
+		if has == 0 && a.v[k] != 0 {
+			return fmt.Sprintf("position %d: no receiver scalar delivered although the receiver holds %v", k, a.v[k])
+		}
+		if has == 1 && float64(v1) != float64(code(a.v[k])) {
+			return fmt.Sprintf("position %d: receiver value %d delivered, the element is %v", k, v1, a.v[k])
+		}
+		if float64(v2) != float64(code(b.v[k])) {
+			return fmt.Sprintf("position %d: operand value %d delivered, the element is %v", k, v2, b.v[k])
+		}
+	}
+	for k := range a.v {
+		if (a.v[k] != 0 || b.v[k] != 0) && !seen[k] {
+			return fmt.Sprintf("position %d (receiver %v, operand %v) is never visited", k, a.v[k], b.v[k])
+		}
+	}
+	return ""
+}
 
 // number of dense r.MdotM(r, r) calls met by the oracle (known finding F-MDOTM-RR)
 var knownRR int
@@ -199,6 +240,17 @@ func (s *mshadow) applyM(o MOp) (panics bool, payload []int64, ok bool, sk mskip
 			sk.payload = true // epsilon <= 0 is outside the property's statement (see known())
 		}
 		payload = []int64{r}
+	case "MJoint":
+		if !o.MA.S || !s.hasm(o.MA) || !s.hasm(o.MB) {
+			ok = false
+			return
+		}
+		a, b := s.getm(o.MA), s.getm(o.MB)
+		if a.n != b.n || a.m != b.m {
+			panics = true
+			return
+		}
+		sk.joint = true
 	case "MdotM":
 		if !s.hasm(o.MR) || !s.hasm(o.MA) || !s.hasm(o.MB) {
 			ok = false
@@ -322,6 +374,11 @@ func propCheckM(c MCase) (fail string, at int) {
 		if panics != (kind == K_PANIC) {
 			return fmt.Sprintf("step %d %s: panic expected %v, observed kind %d", k, name, panics, kind), k
 		}
+		if sk.joint && kind == K_OK {
+			if f := jointOracle(s.getm(o.MA), s.getm(o.MB), p); f != "" {
+				return fmt.Sprintf("step %d JointIterator (receiver sparse, operand sparse=%v): %s", k, o.MB.S, f), k
+			}
+		}
 		if pay != nil && kind == K_OK && !sk.payload && !eqList(pay, p) {
 			return fmt.Sprintf("step %d %s: result %v, expected %v (receiver sparse=%v, operand sparse=%v)", k, name, p, pay, o.MA.S, o.MB.S), k
 		}
@@ -331,7 +388,7 @@ func propCheckM(c MCase) (fail string, at int) {
 		resync := panics || sk.recv
 		isRecvM := func(sparse bool, i int) bool {
 			return resync && o.V == nil && o.MR.S == sparse && o.MR.H == i &&
-				(o.Op != "MdotV" && o.Op != "VdotM" && o.Op != "MEquals")
+				(o.Op != "MdotV" && o.Op != "VdotM" && o.Op != "MEquals" && o.Op != "MJoint")
 		}
 		isRecvV := func(sparse bool, i int) bool {
 			if !resync {
